@@ -47,14 +47,14 @@ class ErrorPath(Suite):
                     ev.append([a, err_event(code, shape, k)])
                     ev.append([a + 5, {"k": "resp", "id": "$ID", "p": {"late": True}}])
                     out.append(G.place({"id": [{"s": "abc"}, {"s": "5"}, None][k % 3], "method": "tools/call",
-                                        "params": {"name": "t"}, "D": 2048, "tie": ["events", "timers"][k % 2],
+                                        "params": {"name": "t"}, "D": 2048, "tie": ["events", "timers", "io"][k % 3],
                                         "progress": "G" in pre, "ev": ev}))
         for h in helpers[1:]:
             for code in CODES[::2] if budget == "quick" else CODES:
                 for shape in ("plain", "data-obj", "data-str"):
                     k += 1
                     ev = [[7, G.sym_event("N", k=k)], [300, err_event(code, shape, k)], [310, {"k": "resp", "id": "$ID", "p": {}}]]
-                    out.append(G.place({"id": None, "helper": h, "D": 1024, "tie": ["events", "timers"][k % 2], "ev": ev}))
+                    out.append(G.place({"id": None, "helper": h, "D": 1024, "tie": ["events", "timers", "io"][k % 3], "ev": ev}))
         rng = ctx.sub_rng("c07", budget)
         n = 4000 if budget == "quick" else 80000
         for _ in range(n):
